@@ -5,7 +5,7 @@
 package manager
 
 // Every function under contract in this package also serves the properties that depend on the whole package.
-//@ package-props C01 C13
+//@ package-props C01 C13 C12
 
 // The completion signal of a target's monitoring goroutine: closing it publishes that
 // the target's last session has been reset (no callback follows). The fact is stable
